@@ -1,5 +1,7 @@
 """_external: outsource / DiscStorage / external (C13).  Names are z3 Strings; sha256 hex digests enter as
 "64 characters, none of them '-', '.', '*'" (part of X7), the directory as a symbolic list of Path records (X8)."""
+import ast
+
 import z3
 
 from pyvc.contract import Loop, Shape, contract
@@ -175,7 +177,11 @@ def p_lookup_path(I, args, kwargs, node):
         I2.ghost["n_unlink"] = I2.ghost["n_unlink"] + 1
         return None
 
-    o = Obj("PathObj", {"stem": f.fields["stem"], "suffix": f.fields["suffix"], "with_name": with_name, "rename": rename, "unlink": unlink})
+    def read_bytes(I2):
+        return SV(z3.Function("bytes_of_file", sort_of(PATH), sort_of(Abs("Val")))(pack(I2.ctx, f, PATH)), Abs("Val"))
+
+    o = Obj("PathObj", {"stem": f.fields["stem"], "suffix": f.fields["suffix"], "with_name": with_name, "rename": rename, "unlink": unlink, "read_bytes": read_bytes,
+                        "rec": f})
     I.ghost["file"] = o
     return o
 
@@ -232,4 +238,170 @@ contract(
     },
     frame=[],
     safety_props=["C18", "C13"],
+)
+
+# ---------------------------------------------------------------------------------------------- external.__init__ / __repr__
+
+HEX = z3.Union(z3.Range("0", "9"), z3.Range("a", "f"), z3.Range("A", "F"))
+ALNUM = z3.Union(z3.Range("0", "9"), z3.Range("a", "z"), z3.Range("A", "Z"))
+RE_HASH = z3.Star(HEX)
+RE_SUFFIX = z3.Concat(z3.Re("."), z3.Star(ALNUM))
+RE_NAME = z3.Concat(RE_HASH, z3.Option(z3.Re("*")), RE_SUFFIX)
+
+
+def p_fullmatch(I, args, kwargs, node):
+    """re.fullmatch(r"([0-9a-fA-F]*)\\*?(\\.[a-zA-Z0-9]*)", name): the match object, or None when the name has not this shape"""
+    pat, name = args[0], args[1]
+    if pat != r"([0-9a-fA-F]*)\*?(\.[a-zA-Z0-9]*)":
+        I.oblige("safety", "external-name-pattern-is-the-documented-one [C13]", z3.BoolVal(False))
+    ok = z3.InRe(name.t, RE_NAME)
+    if not I.ctx.branch(ok):
+        return None
+    h = z3.String(I.ctx.fresh_name("group1"))
+    sfx = z3.String(I.ctx.fresh_name("group2"))
+    star = z3.String(I.ctx.fresh_name("star"))
+    I.ctx.assume(z3.And(name.t == z3.Concat(h, star, sfx), z3.InRe(h, RE_HASH), z3.InRe(sfx, RE_SUFFIX), z3.Or(star == z3.StringVal(""), star == z3.StringVal("*"))))
+    return Obj("re.Match", {"groups": lambda I2: (SV(h, STR), SV(sfx, STR))})
+
+
+def s_name_shape(I, name):
+    return SV(z3.InRe(name.t, RE_NAME), BOOL)
+
+
+def s_is_hex(I, s):
+    return SV(z3.InRe(s.t, RE_HASH), BOOL)
+
+
+def s_is_suffix(I, s):
+    return SV(z3.InRe(s.t, RE_SUFFIX), BOOL)
+
+
+SPEC_NS.update({"name_shape": s_name_shape, "is_hex": s_is_hex, "is_suffix": s_is_suffix})
+
+contract(
+    EX + ".external.__init__",
+    params={"self": "@ExtNew", "name": "Str"},
+    shapes={"ExtNew": Shape(EX + ".external", {})},
+    callees={"re.fullmatch": p_fullmatch, "fullmatch": p_fullmatch},
+    ensures={
+        # C13: a reference is a (possibly shortened) hexadecimal hash, an optional `*`, and a dotted suffix
+        "decomposes-the-name [C13]": "is_hex(self._hash) and is_suffix(self._suffix) and (self._hash + self._suffix == name or self._hash + '*' + self._suffix == name)",
+    },
+    raises={"ValueError": {"only-for-a-malformed-name [C13]": "not name_shape(name)"}},
+    safety_props=["C18"],
+)
+
+SHAPES.update({"CfgHL": Shape("inline_snapshot._config.Config", {"hash_length": "Int"})})
+
+contract(
+    EX + ".external.__repr__",
+    params={"self": "@Ext"},
+    globals_={"inline_snapshot._config.config": "@CfgHL"},
+    requires={"configured-length-is-positive": "_config.config.hash_length >= 1"},
+    returns=None,
+    result_name="ret",
+    ensures={
+        # C13: the text written into the test file names the hash prefix of the configured length, `*` marks a shortened hash
+        "names-the-hash-prefix [C13]": """ret == 'external("' + self._hash[:_config.config.hash_length] + ite(len(self._hash[:_config.config.hash_length]) == 64, '', '*') + self._suffix + '")'""",
+    },
+    frame=[],
+    safety_props=["C18"],
+)
+
+# ---------------------------------------------------------------------------------------------- DiscStorage.save / read / lookup_all / list / prune_new_files
+
+
+def _child(I2, name):
+    def write_bytes(I3, data):
+        I3.ghost["n_write"] = I3.ghost["n_write"] + 1
+        I3.ghost["written_name"] = name
+        I3.ghost["written_data"] = data
+        I3.ghost["dir_ensured_before_write"] = I3.ghost["n_mkdir"] >= 1
+        return None
+
+    def write_text(I3, text, enc=None):
+        I3.ghost["n_aux_write"] = I3.ghost["n_aux_write"] + 1
+        I3.ghost["aux_name"] = name
+        return None
+
+    def exists(I3):
+        return SV(z3.Bool(I3.ctx.fresh_name("exists")), BOOL)
+
+    return Obj("PathChild", {"write_bytes": write_bytes, "write_text": write_text, "exists": exists, "name": name})
+
+
+def _mkdir(I2, **kw):
+    I2.ghost["n_mkdir"] = I2.ghost["n_mkdir"] + 1
+    return None
+
+
+SG = {"n_write": "=0", "written_name": "=None", "written_data": "=None", "n_mkdir": "=0", "n_aux_write": "=0", "aux_name": "=None", "dir_ensured_before_write": "=False",
+      "globbed": "=None", "matches": "=None"}
+
+SHAPES.update({"SStorage": Shape(EX + ".DiscStorage", {"directory": "@SDir"}),
+               "SDir": Shape("pathlib.Path", {"__truediv__": _child, "mkdir": _mkdir})})
+
+contract(
+    EX + ".DiscStorage.save",
+    params={"self": "@SStorage", "name": "Str", "data": "Val"},
+    ghost={"vars": SG},
+    ensures={
+        # C13: "the data behind external(name) is byte-identical to what was outsourced": one file, named as asked, holding the bytes
+        "writes-exactly-the-bytes-under-the-name [C13]": "n_write == 1 and written_name == name and same(written_data, data) and dir_ensured_before_write",
+        # the only other file ever written is the .gitignore of the storage directory
+        "only-other-write-is-gitignore [C13,C04]": "n_aux_write <= 1 and implies(n_aux_write == 1, aux_name == '.gitignore')",
+    },
+    requires={"no-glob-character (asserted by the function)": "'*' not in name"},
+    callees={"DiscStorage._ensure_directory": "inline"},
+    frame=[],
+    safety_props=["C18"],
+    assumes=["X8"],
+)
+
+
+def p_rec_unlink(I, a, k, n):
+    I.ghost["unlinked"] = I.binop(ast.Add(), I.ghost["unlinked"], PyList([a[0]]))
+    return None
+
+
+DEFAULT_POLICIES["attrs"].update({"PathRec.unlink": p_rec_unlink})
+
+contract(
+    EX + ".DiscStorage.prune_new_files",
+    params={"self": "@LStorage"},
+    ghost={"vars": {"matches": "=None", "globbed": "=None", "unlinked": "=emptylist:PathRec"}},
+    loops={0: Loop(index="k", ghost_modifies=["unlinked"], inv={"removed-the-matches-so-far": "unlinked == matches[:k]"})},
+    ensures={
+        # C13: "an outsourced but unreferenced file never survives the start of the next session" - every `*-new.*` file goes -
+        # and "a persisted file is removed only by an approved trim": nothing but the `*-new.*` files goes
+        "removes-exactly-the-new-files [C13,C04]": "globbed == '*-new.*' and unlinked == matches",
+    },
+    raises={},
+    frame=[],
+    safety_props=["C18"],
+    assumes=["X8"],
+)
+
+
+def s_bytes_of(I, o):
+    return SV(z3.Function("bytes_of_file", sort_of(PATH), sort_of(Abs("Val")))(pack(I.ctx, o.fields["rec"], PATH)), Abs("Val"))
+
+
+SPEC_NS.update({"bytes_of": s_bytes_of})
+
+contract(
+    EX + ".DiscStorage.read",
+    params={"self": "@OStorage", "name": "Str"},
+    callees={"DiscStorage._lookup_path": p_lookup_path},
+    ghost={"vars": PG},
+    returns=None,
+    result_name="ret",
+    ensures={
+        # C13: "A missing or ambiguous hash prefix raises an error instead of resolving to other data"
+        "content-of-the-unique-match [C13]": "looked_up == name and not lookup_failed and same(ret, bytes_of(file)) and n_unlink == 0 and n_rename == 0",
+    },
+    raises={"HashError": {"missing-or-ambiguous [C13]": "lookup_failed"}},
+    frame=[],
+    safety_props=["C18"],
+    assumes=["X8"],
 )
